@@ -655,7 +655,7 @@ pub fn run(ctx: &vcommon::Ctx) {
     rep.assume("a call naming no method of a contract without fallback: any revert code is accepted (the docs only say 'the contract will revert')");
     rep.assume("method names are ASCII identifiers, keywords as raw identifiers and a few names with Latin-1 letters; coins/asset/gas parameters of calls are left at their defaults");
     rep.assume("type trees are limited to depth 2 with at most 3 members per aggregate to keep compile time bounded");
-    let plan = driver::Plan { contracts: ctx.cases(128, 4000), batch: ctx.tier.pick(8, 25), tape_len: 3000, salt: 11 };
+    let plan = driver::Plan { contracts: ctx.cases(128, 3000), batch: ctx.tier.pick(8, 25), tape_len: 3000, salt: 11 };
     let degraded = crate::driver::run(ctx, &rep, &C11, &plan);
     crate::driver::finish(&rep, degraded);
 }
